@@ -6,10 +6,39 @@ VERUS = {
     'int_shift_ops_dword': {'file': 'int_shift_ops_dword.rs', 'w32': False},   # u128::leading_zeros assumption
 }
 
-KANI = {}
+KANI = {
+    'int_bits_signed': {
+        'package': 'dashu-int', 'target': 'integer/src/bits.rs', 'file': 'int_bits_signed.rs',
+        'harnesses': {
+            'vk_bsig_shr_min_128': {'kind': 'bounded', 'bound': '5 concrete instances around -2^127 >> 128'},
+            'vk_bsig_shr_corners': {'kind': 'bounded', 'bound': '16 concrete values x 9 concrete shifts'},
+            'vk_bsig_bit_inline': {'kind': 'bounded', 'bound': 'all i128 (inline magnitudes <= 2^127), n <= 130'},
+            'vk_bsig_trailing_inline': {'kind': 'bounded', 'bound': 'all i128 (inline magnitudes <= 2^127)'},
+            'vk_bsig_bit_heap': {'kind': 'bounded',
+                                 'bound': '3-word magnitudes, palette words (3 symbolic bits each), n <= 260'},
+            'vk_bsig_not_inline': {'kind': 'bounded', 'bound': '|x| < 2^126', 'tier': 'thorough'},
+            'vk_bsig_trailing_heap': {'kind': 'bounded', 'bound': '3-word magnitudes, palette words',
+                                      'tier': 'thorough'},
+        },
+    },
+    'int_bits_npot': {
+        'package': 'dashu-int', 'target': 'integer/src/bits.rs', 'file': 'int_bits_npot.rs',
+        'harnesses': {
+            'vk_npot_len3': {'kind': 'bounded', 'bound': 'heap operands of exactly 3 words (full symbolic words)'},
+        },
+    },
+}
 
 PROP_UNITS = {
-    'C09': {'verus': ['int_bits_large', 'int_shift_ops', 'int_shift_ops_dword', 'int_bits_signed']},
+    'C09': {'verus': ['int_bits_large', 'int_shift_ops', 'int_shift_ops_dword', 'int_bits_signed'],
+            'kani': ['int_bits_signed', 'int_bits_npot'],
+            'undecided': [
+                'the 16 BitAnd/BitOr/BitXor/AndNot dispatch impls of TypedRepr/TypedReprRef (bits.rs mod repr) are assumed '
+                'digit-wise in unit int_bits_signed; their heap kernels are proved in int_bits_large',
+                'next_power_of_two_large (skip_while iterator): bounded Kani only (3 words)',
+                'count_ones / count_zeros / bit_len / UBig::ones: not under contract here',
+                'BitTest::bit and trailing_ones of negative IBig: bounded Kani only (inline: all i128; heap: 3 palette words)',
+            ]},
     'C16': {'verus': ['int_bits_large', 'int_shift_ops', 'int_shift_ops_dword', 'int_bits_signed']},
-    'C19': {'verus': ['int_bits_large', 'int_shift_ops']},
+    'C19': {'verus': ['int_bits_large', 'int_shift_ops', 'int_bits_signed']},
 }
